@@ -93,6 +93,8 @@ class RecWorld(ConnWorld):
         self.ret_hook = self._ret
         self.stop_seq: dict[str, int] = {}
         self.last_start_seq = 0
+        self.oblig: list[dict[str, Any]] = []  # reconnects the property promises: {"created", "due", "why"}
+        self.stop_issued = False  # a stop() was issued after the last start(): nothing is promised any more
 
     # --- callbacks of the manager --------------------------------------------------------------------
     async def _on_connect(self) -> None:
@@ -108,6 +110,7 @@ class RecWorld(ConnWorld):
         self.note("on_disconnect", bool(expected))
         self.ends.append((self.loop.time(), bool(expected)))
         self.tags.add("end-expected" if expected else "end-unexpected")
+        self.promise(0.0 if not expected else 5.0, "unexpected disconnect: immediately" if not expected else "expected disconnect: after 5 s")
 
     async def _on_error(self, err: Exception) -> None:
         from aioesphomeapi.core import InvalidAuthAPIError, InvalidEncryptionKeyAPIError, RequiresEncryptionAPIError
@@ -121,12 +124,34 @@ class RecWorld(ConnWorld):
         # "the n-th consecutive failed attempt": consecutive since the last success; a start() in between restarts the count, and it is not
         # specified whether at its call or when it takes effect - every reading is accepted
         self.failures.append((self.loop.time(), tuple(sorted({self.streak, self.streak_ret, self.streak_succ})), auth, self.streak_auth))
+        f = self.failures[-1]
+        self.promise(max(self.allowed_waits(f[1], f[2], f[3])), f"failure {f[1]}: back-off")
         self.streak_auth = self.streak_auth or auth
         self.tags.add("error:" + type(err).__name__)
 
     # --- monitor ----------------------------------------------------------------------------------------
+    def promise(self, wait: float, why: str) -> None:
+        """The manager owes an attempt no later than now + wait - unless one is in flight, a session is alive or it was stopped."""
+        if not self.rl_started or self.stop_issued or self.stopped_done_at is not None:
+            return
+        if self.live_sock() is not None:
+            return
+        now = self.loop.time()
+        # the latest schedule wins over promises that are still in the future; a promise that is due right now stays due
+        self.oblig = [o for o in self.oblig if o["due"] <= now + EPS]
+        self.oblig.append({"created": now, "due": now + wait, "why": why})
+
+    def check_promises(self) -> None:
+        now = self.loop.time()
+        for o in self.oblig:
+            if now > o["due"] + EPS:
+                self.viol.append(f"C18:missed-reconnect: {o['why']} - promised at {o['created']} for {o['due']} at the latest, "
+                                 f"but no attempt had started by {now}")
+                break
+
     def _on_socket(self, s: Any) -> None:
         now = self.loop.time()
+        self.oblig = [o for o in self.oblig if not (o["created"] - EPS <= now <= o["due"] + EPS)]
         others = [x for x in self.net.sockets if x is not s and not x.closed]
         self.attempts.append({"t": now, "fd": s.fd})
         self.note("attempt", s.fd)
@@ -302,6 +327,7 @@ class RecHarness:
         if label == "rl_start":
             w.counter += 1
             w.last_start_seq = w.counter
+            w.stop_issued = False
             w.start_instants.append(w.loop.time())
             w.rl_started = True
             w.stopped_done_at = None
@@ -310,6 +336,8 @@ class RecHarness:
         elif label == "rl_stop":
             w.counter += 1
             w.stop_seq[f"rl_stop#{w.counter}"] = w.counter
+            w.stop_issued = True
+            w.oblig = []
             w.spawn(f"rl_stop#{w.counter}", lambda: w.rl.stop())
         elif label in ("tcp_ok", "tcp_refused"):
             io = True
@@ -357,6 +385,8 @@ class RecHarness:
         elif io:
             w.step()
         w._after(None)
+        if label in ("time", "delta"):
+            w.check_promises()
 
     # --- oracle ---------------------------------------------------------------------------------------------
     def verdict(self, w: RecWorld, final: bool = False) -> list[str]:
@@ -394,6 +424,7 @@ class RecHarness:
                 # waiting: the next attempt must come, at an instant the justifier accepts, within the maximum back-off
                 t0 = w.loop.time()
                 w.run_timers(t0 + 61.0)
+                w.check_promises()
                 v = self.verdict(w)
                 if not v and len(w.attempts) == before:
                     v.append(f"C18:no-retry: started, not stopped, no attempt in flight and no session at {t0}, but no attempt starts within 61 s "
@@ -403,6 +434,8 @@ class RecHarness:
         # after everything: stop must be clean
         w.counter += 1
         w.stop_seq[f"rl_stop#{w.counter}"] = w.counter
+        w.stop_issued = True
+        w.oblig = []
         w.spawn(f"rl_stop#{w.counter}", lambda: w.rl.stop())
         w.drain()
         w.run_timers(w.loop.time() + 130.0)
@@ -440,6 +473,7 @@ class RecHarness:
                 (w.calls[-1][1] if w.calls else None),
                 sum(1 for x in w.calls if x[1] == "on_connect") - w.sessions_started,
                 sum(1 for x in w.calls if x[1] == "on_disconnect") - w.sessions_ended,
+                tuple((round(o["due"] - now, 6), o["why"].split(":")[0]) for o in w.oblig), w.stop_issued,
             )
             fp = (
                 c.obj(w.rl), c.obj(w.client), fingerprint.loop_canon(w.loop), pend,
